@@ -99,6 +99,11 @@ pub fn run_table() {
     bv_rows::<StubVM<2, 4, 0>>(&trace, max_bin_size);
     bv_rows::<StubVM<3, 6, 0>>(&trace, max_bin_size);
     bv_rows::<StubVM<4, 6, 0>>(&trace, max_bin_size);
+    if flag("morevms") {
+        bv_rows::<StubVM<3, 4, 0>>(&trace, max_bin_size);
+        bv_rows::<StubVM<2, 6, 0>>(&trace, max_bin_size);
+        bv_rows::<StubVM<3, 12, 0>>(&trace, max_bin_size);
+    }
     let n = trace.write_to(&out).expect("write trace");
     println!("rows={}", n);
 }
